@@ -10,13 +10,13 @@ namespace GM.Proof.ConvertXRel
 open GM GM.Text GM.Blocks
 
 /-- the same answer from every state, or the left computation answers `pre` -/
-structure Rel {α : Type} (m1 m2 : M α) : Prop where
-  h : ∀ s, m1 s = m2 s ∨ m1 s = .error .pre
+structure Rel (x : Bool) {α : Type} (m1 m2 : M α) : Prop where
+  h : ∀ s, m1 s = m2 s ∨ (x = true ∧ m1 s = .error .pre)
 
-theorem Rel.refl {α} (m : M α) : Rel m m := ⟨fun _ => Or.inl rfl⟩
+theorem Rel.refl {x : Bool} {α} (m : M α) : Rel x m m := ⟨fun _ => Or.inl rfl⟩
 
-theorem Rel.bind {α β} {m1 m2 : M α} {f1 f2 : α → M β} (hm : Rel m1 m2) (hf : ∀ a, Rel (f1 a) (f2 a)) :
-    Rel (m1 >>= f1) (m2 >>= f2) := by
+theorem Rel.bind {x : Bool} {α β} {m1 m2 : M α} {f1 f2 : α → M β} (hm : Rel x m1 m2) (hf : ∀ a, Rel x (f1 a) (f2 a)) :
+    Rel x (m1 >>= f1) (m2 >>= f2) := by
   constructor
   intro s
   simp only [Bind.bind, StateT.bind]
@@ -25,10 +25,10 @@ theorem Rel.bind {α β} {m1 m2 : M α} {f1 f2 : α → M β} (hm : Rel m1 m2) (
     cases m2 s with
     | error e => exact Or.inl rfl
     | ok p => exact (hf p.1).h p.2
-  · rw [h]; exact Or.inr rfl
+  · rw [h.2]; exact Or.inr ⟨h.1, rfl⟩
 
-theorem Rel.ite {α} {c : Prop} [Decidable c] {a1 a2 b1 b2 : M α} (ha : Rel a1 a2) (hb : Rel b1 b2) :
-    Rel (if c then a1 else b1) (if c then a2 else b2) := by
+theorem Rel.ite {x : Bool} {α} {c : Prop} [Decidable c] {a1 a2 b1 b2 : M α} (ha : Rel x a1 a2) (hb : Rel x b1 b2) :
+    Rel x (if c then a1 else b1) (if c then a2 else b2) := by
   split <;> assumption
 
 macro "rel_step" : tactic =>
@@ -43,26 +43,26 @@ macro "rel_step" : tactic =>
 macro "rel" : tactic => `(tactic| repeat' rel_step)
 
 section driver
-variable {ptsA ptsB : List PT} (H : ∀ n, Rel (transformParagraph ptsA n) (transformParagraph ptsB n))
+variable {x : Bool} {ptsA ptsB : List PT} (H : ∀ n, Rel x (transformParagraph ptsA n) (transformParagraph ptsB n))
 include H
 
 theorem closeLoopT_rel (blocks : List Block) (to : Int) (k : Nat) :
-    Rel (closeLoopT ptsA blocks to k) (closeLoopT ptsB blocks to k) := by
+    Rel x (closeLoopT ptsA blocks to k) (closeLoopT ptsB blocks to k) := by
   induction k with
   | zero => unfold closeLoopT; rel
   | succ k ih => unfold closeLoopT; rel
 
-theorem closeBlocksT_rel (frm to : Int) : Rel (closeBlocksT ptsA frm to) (closeBlocksT ptsB frm to) := by
+theorem closeBlocksT_rel (frm to : Int) : Rel x (closeBlocksT ptsA frm to) (closeBlocksT ptsB frm to) := by
   have := closeLoopT_rel H
   unfold closeBlocksT; rel
 
 theorem requireParaT_rel (parent : Nat) (last : Option Nat) (lastBlock : Option Block) :
-    Rel (requireParaT ptsA parent last lastBlock) (requireParaT ptsB parent last lastBlock) := by
+    Rel x (requireParaT ptsA parent last lastBlock) (requireParaT ptsB parent last lastBlock) := by
   unfold requireParaT; rel
 
 theorem tryParsersT_rel (parent : Nat) (blankLine continuable : Bool) (w : Int) (bps : List BP)
     (result : OpenResult) (lastBlock : Option Block) :
-    Rel (tryParsersT ptsA parent blankLine continuable w bps result lastBlock)
+    Rel x (tryParsersT ptsA parent blankLine continuable w bps result lastBlock)
       (tryParsersT ptsB parent blankLine continuable w bps result lastBlock) := by
   have := requireParaT_rel H
   have := closeBlocksT_rel H
@@ -73,15 +73,15 @@ theorem tryParsersT_rel (parent : Nat) (blankLine continuable : Bool) (w : Int) 
 theorem retryStepT_rel (blankLine tdone continuable : Bool) (parent : Nat) (w : Int) (bps : List BP)
     (result : OpenResult) (lastBlock : Option Block)
     (againA againB : Bool → Bool → Nat → OpenResult → Option Block → M OpenResult)
-    (hag : ∀ a b c d e, Rel (againA a b c d e) (againB a b c d e)) :
-    Rel (retryStepT ptsA blankLine tdone continuable parent w bps result lastBlock againA)
+    (hag : ∀ a b c d e, Rel x (againA a b c d e) (againB a b c d e)) :
+    Rel x (retryStepT ptsA blankLine tdone continuable parent w bps result lastBlock againA)
       (retryStepT ptsB blankLine tdone continuable parent w bps result lastBlock againB) := by
   have := tryParsersT_rel H
   unfold retryStepT; rel
 
 theorem openBlocksLoopT_rel (blankLine : Bool) : ∀ (fuel : Nat) (tdone continuable : Bool) (parent : Nat)
     (result : OpenResult) (lastBlock : Option Block),
-    Rel (openBlocksLoopT ptsA blankLine fuel tdone continuable parent result lastBlock)
+    Rel x (openBlocksLoopT ptsA blankLine fuel tdone continuable parent result lastBlock)
       (openBlocksLoopT ptsB blankLine fuel tdone continuable parent result lastBlock) := by
   intro fuel
   induction fuel with
@@ -92,13 +92,13 @@ theorem openBlocksLoopT_rel (blankLine : Bool) : ∀ (fuel : Nat) (tdone continu
     unfold openBlocksLoopT; rel
 
 theorem openBlocksT_rel (parent : Nat) (blankLine : Bool) :
-    Rel (openBlocksT ptsA parent blankLine) (openBlocksT ptsB parent blankLine) := by
+    Rel x (openBlocksT ptsA parent blankLine) (openBlocksT ptsB parent blankLine) := by
   have := openBlocksLoopT_rel H
   unfold openBlocksT; rel
 
 theorem lineLoopT_rel (parent : Nat) (openedBlocks : List Block) (lastIndex : Int) :
     ∀ (rest : List Block) (i : Int) (blankLines : List LineStat),
-    Rel (lineLoopT ptsA parent openedBlocks lastIndex rest i blankLines)
+    Rel x (lineLoopT ptsA parent openedBlocks lastIndex rest i blankLines)
       (lineLoopT ptsB parent openedBlocks lastIndex rest i blankLines) := by
   have := closeBlocksT_rel H
   have := openBlocksT_rel H
@@ -108,7 +108,7 @@ theorem lineLoopT_rel (parent : Nat) (openedBlocks : List Block) (lastIndex : In
   | cons be rest ih => intro i blankLines; unfold lineLoopT; rel
 
 theorem linesLoopT_rel (parent : Nat) : ∀ (fuel : Nat) (blankLines : List LineStat),
-    Rel (linesLoopT ptsA parent fuel blankLines) (linesLoopT ptsB parent fuel blankLines) := by
+    Rel x (linesLoopT ptsA parent fuel blankLines) (linesLoopT ptsB parent fuel blankLines) := by
   have := lineLoopT_rel H
   intro fuel
   induction fuel with
@@ -116,7 +116,7 @@ theorem linesLoopT_rel (parent : Nat) : ∀ (fuel : Nat) (blankLines : List Line
   | succ fuel ih => intro blankLines; unfold linesLoopT; rel
 
 theorem blocksLoopT_rel (parent : Nat) : ∀ (fuel : Nat) (blankLines : List LineStat),
-    Rel (blocksLoopT ptsA parent fuel blankLines) (blocksLoopT ptsB parent fuel blankLines) := by
+    Rel x (blocksLoopT ptsA parent fuel blankLines) (blocksLoopT ptsB parent fuel blankLines) := by
   have := openBlocksT_rel H
   have := linesLoopT_rel H
   intro fuel
@@ -124,21 +124,21 @@ theorem blocksLoopT_rel (parent : Nat) : ∀ (fuel : Nat) (blankLines : List Lin
   | zero => intro _; unfold blocksLoopT; rel
   | succ fuel ih => intro blankLines; unfold blocksLoopT; rel
 
-theorem parseBlocksT_rel (parent : Nat) : Rel (parseBlocksT ptsA parent) (parseBlocksT ptsB parent) := by
+theorem parseBlocksT_rel (parent : Nat) : Rel x (parseBlocksT ptsA parent) (parseBlocksT ptsB parent) := by
   have := blocksLoopT_rel H
   unfold parseBlocksT; rel
 
 /-- the whole block phase: the same final state (or the same error), or the left run answers `pre` -/
-theorem runT_rel (src : Bytes) : runT ptsA src = runT ptsB src ∨ runT ptsA src = .error .pre := by
+theorem runT_rel (src : Bytes) : runT ptsA src = runT ptsB src ∨ (x = true ∧ runT ptsA src = .error .pre) := by
   unfold runT
   rcases (parseBlocksT_rel H 0).h (initSt src) with h | h
   · rw [h]; exact Or.inl rfl
-  · rw [h]; exact Or.inr rfl
+  · rw [h.2]; exact Or.inr ⟨h.1, rfl⟩
 
 end driver
 /-- one more transformer behind a non-empty list that, on every state, returns the state unchanged or answers `pre` -/
 theorem transformParagraph_silent (g tp : PT) (htp : ∀ n s, tp n s = .ok ((), s) ∨ tp n s = .error .pre) (n : Nat) :
-    Rel (transformParagraph ([g] ++ [tp]) n) (transformParagraph ([g] ++ []) n) := by
+    Rel true (transformParagraph ([g] ++ [tp]) n) (transformParagraph ([g] ++ []) n) := by
   constructor
   intro s
   simp only [List.append_nil, List.singleton_append, transformParagraph, bind, StateT.bind, getNode, pure, StateT.pure,
@@ -157,6 +157,7 @@ theorem transformParagraph_silent (g tp : PT) (htp : ∀ n s, tp n s = .ok ((), 
         show (if (s1.nodes.getD n default).parent.isNone = true then StateT.pure true else StateT.pure false) s1 = _
         rw [if_neg hp]
       · right
+        refine ⟨trivial, ?_⟩
         simp only [StateT.bind, h]
         rfl
 
@@ -167,7 +168,9 @@ theorem blockPhaseX_table_no_dash (c : XCfg) (guard : Bool) (src : Bytes) (h : (
     blockPhaseX { c with table := true } guard src = blockPhaseX { c with table := false } guard src ∨
     blockPhaseX { c with table := true } guard src = .error .pre := by
   unfold blockPhaseX paragraphTransformersX paragraphTransformers
-  exact runT_rel (fun n => transformParagraph_silent _ _ (GM.Proof.ConvertX.transformPT_no_dash src h) n) src
+  rcases runT_rel (fun n => transformParagraph_silent _ _ (GM.Proof.ConvertX.transformPT_no_dash src h) n) src with e | e
+  · exact Or.inl e
+  · exact Or.inr e.2
 
 /-! ### Table on a source without '-': whole documents -/
 
